@@ -61,6 +61,18 @@ class NdefAdapter(object):
 NDEF = NdefAdapter()
 
 
+class LoopDied(coop.CoopSignal):
+    """an exception other than the documented SystemExit (after IOError) /
+    KeyboardInterrupt escaped run_as_initiator / run_as_target"""
+
+
+MAC_ERRORS = {'timeout': nfc.clf.TimeoutError,
+              'transmission': nfc.clf.TransmissionError,
+              'protocol': nfc.clf.ProtocolError,
+              'broken': nfc.clf.BrokenLinkError,
+              'commerr': nfc.clf.CommunicationError}
+
+
 class _Yield(BaseException):
     """leaves the run loop at the point where it would wait for the next
     frame from the peer (end of one link step)"""
@@ -100,8 +112,8 @@ class World(object):
         f = self.frames.pop(0)
         if f == 'ioerror':
             raise IOError(errno.EIO, "scripted input/output error")
-        if f == 'timeout':
-            raise nfc.clf.TimeoutError("scripted")
+        if isinstance(f, str) and f in MAC_ERRORS:
+            raise MAC_ERRORS[f]("scripted")
         return f
 
     def mac_deactivate(self, *args, **kwargs):
@@ -118,6 +130,8 @@ class World(object):
             pass
         except SystemExit:
             pass        # what the run loop raises after an IOError
+        except Exception as e:
+            raise LoopDied(type(e).__name__)
 
     # ---- link steps
     def step(self, name, sock):
@@ -131,8 +145,8 @@ class World(object):
             return lambda: self.loop([b"\x00\x00"], local=True)
         if name == 'loop:disrupt':
             return lambda: self.loop([None])
-        if name == 'loop:timeout':
-            return lambda: self.loop(['timeout'])
+        if name.startswith('loop:') and name[5:] in MAC_ERRORS:
+            return lambda: self.loop([name[5:]])
         if name == 'loop:ioerror':
             return lambda: self.loop(['ioerror'])
         if name == 'loop:remote':
@@ -237,6 +251,28 @@ class World(object):
         else:
             raise ValueError(state)
         return s
+
+    def poison(self, kind):
+        """an outbound PDU that can not be encoded waits to be collected"""
+        L = self.L
+        long_name = b"urn:nfc:sn:" + b"x" * 250
+        if kind == 'resolve':           # a thread sleeping in resolve()
+            try:
+                L.resolve(long_name)
+            except coop.SetupBlock:
+                pass
+        elif kind == 'connect':         # a thread sleeping in connect()
+            s = L.socket(DLC)
+            try:
+                L.connect(s, long_name)
+            except coop.SetupBlock:
+                pass
+        elif kind == 'raw':             # raw access point, invalid header
+            s = L.socket(RAW)
+            L.bind(s, 41)
+            L.send(s, pdu.UnnumberedInformation(70, 41, b"x"), DONTWAIT)
+        else:
+            raise ValueError(kind)
 
     # ---- application calls
     def message(self, s, tag):
@@ -385,6 +421,8 @@ def run_app(S, fn, what, failures=None):
                     "explored - link steps are atomic")
     except coop.Livelock as e:
         label = "livelock:%s:%s" % (what, e.args[0])
+    except LoopDied as e:
+        label = "run-loop-raises:%s:%s" % (e.args[0], S.ran[-1][0])
     except Exception as e:
         label = "raises:%s:%s" % (what, exc_label(e)[len("uncaught:"):])
     if failures is None:
@@ -412,6 +450,8 @@ def fail(sx, S, label):
     if label.startswith("link-thread-blocked"):
         sx.reach("link-thread-blocked")
         sx.check(False, label)
+    if label.startswith("run-loop-raises"):
+        sx.check(False, label)
     sx.reach("left-waiting" if label.startswith("left-waiting") else "failed")
     sx.check(False, "%s:%s" % (label, window(S)))
 
@@ -422,6 +462,8 @@ def link_rest(sx, S):
         S.finish()
     except coop.LinkBlocked as e:
         sx.check(False, "link-thread-blocked:%s:%s" % (S.ran[-1][0], e.site))
+    except LoopDied as e:
+        sx.check(False, "run-loop-raises:%s:%s" % (e.args[0], S.ran[-1][0]))
 
 
 def reach_points(sx, S, what):
@@ -440,14 +482,19 @@ def pick_script(sx, scripts):
     return role, list(steps)
 
 
-def call_vs_link(sx, state, scripts, fine=0):
+def call_vs_link(sx, state, scripts, fine=0, poison=None):
+    """poison: an un-encodable outbound PDU is queued ('resolve' / 'connect'
+    / 'raw'), so that the next run-loop iteration fails inside exchange()"""
     S = coop.SCHED
     S.fine = bool(fine)
     S.trace_files = TRACE_FILES
     kind = state.split(':')[0]
     role, script = pick_script(sx, scripts)
-    w = World(sx, role, sym_link_miu=(kind != 'dlc'))
+    w = World(sx, role, sym_link_miu=(kind != 'dlc' and not poison))
     sock = w.setup(state)
+    if poison:
+        w.poison(poison)
+        sx.reach("poisoned:" + poison)
     call = sx.pick("call", CALLS[kind])
     what = "%s/%s" % (state, call)
     S.steps = [(n, w.step(n, sock)) for n in script]
@@ -626,6 +673,8 @@ def _waiters_vs_link(sx, S, kind, state, call, n, scripts):
             fn()
         except coop.LinkBlocked as e:
             sx.check(False, "link-thread-blocked:%s:%s" % (nm, e.site))
+        except LoopDied as e:
+            sx.check(False, "run-loop-raises:%s:%s" % (e.args[0], nm))
         let_run()
     sx.check(w.L.link.SHUTDOWN, "link-not-shut-down-after-script")
     left = S.parked()
@@ -659,7 +708,9 @@ STATES = ['raw:unbound', 'raw:bound', 'raw:data', 'raw:closed',
           'dlc:est+queued', 'dlc:closewait', 'dlc:disconnecting', 'dlc:closed',
           'raw:queued', 'ldl:queued', 'sd:fresh', 'sd:pending']
 ENDS = ['terminate', 'loop:local', 'loop:disrupt', 'loop:remote',
-        'loop:ioerror', 'loop:timeout']
+        'loop:ioerror', 'loop:timeout', 'loop:transmission', 'loop:protocol',
+        'loop:broken', 'loop:commerr']
+POISONS = ['resolve', 'connect', 'raw']
 # events of the conversation that precede the end of the link (second
 # preemption); all are delivered by an iteration of the real run loop
 CONN_EVENTS = {
@@ -693,10 +744,15 @@ def partitions(tier):
     quick = tier == "quick"
     for st in STATES:
         if quick:
-            scripts = [[default_role(e), [e]] for e in ENDS[:5]]
+            scripts = [[default_role(e), [e]] for e in ENDS[:6]]
             scripts += [['tgt', [ev, 'loop:disrupt']]
                         for ev in CONN_EVENTS.get(st, [])]
             add("call_vs_link", st, state=st, scripts=scripts)
+            # the link loop dies from inside: un-encodable outbound PDU
+            k = STATES.index(st)
+            add("call_vs_link", "%s:poison" % st, state=st,
+                poison=POISONS[k % 3],
+                scripts=[['ini' if k % 2 else 'tgt', ['loop:symm']]])
         else:
             for role in ('ini', 'tgt'):
                 scripts = [[role, [e]] for e in ENDS]
@@ -707,6 +763,10 @@ def partitions(tier):
                 if scripts:
                     add("call_vs_link", "%s:%s:2" % (st, role), state=st,
                         scripts=scripts)
+            for pk in POISONS:
+                add("call_vs_link", "%s:poison:%s" % (st, pk), state=st,
+                    poison=pk, scripts=[['ini', ['loop:symm']],
+                                        ['tgt', ['loop:symm']]])
             # line granularity
             add("call_vs_link", "%s:fine" % st, state=st, fine=1,
                 scripts=[['ini', ['terminate']], ['tgt', ['loop:remote']]])
@@ -776,6 +836,7 @@ LOCKING = WAITING + ['raw.bind', 'raw.close', 'raw.setsockopt', 'raw.send_nb',
                      'ldl.bind', 'ldl.close', 'ldl.connect', 'ldl.send_nb',
                      'dlc.bind', 'dlc.listen', 'dlc.setsockopt', 'dlc.send_nb']
 _MUST = ["later-calls-done", "spawned-thread-ran", "woken-by-link-end",
+         "poisoned:resolve", "poisoned:connect", "poisoned:raw",
          "multi:several-woken"] + \
     ["multi:all-asleep:" + k for k in sorted(WAITERS)] + \
     ["multi:all-returned:" + k for k in sorted(WAITERS)] + \
@@ -793,8 +854,8 @@ MUST_REACH = {
     ["pre:dlc.getsockopt:line", "pre:dlc.getsockname:line"],
 }
 BOUNDS = {
-    "quick": "schedule enumeration, not data: 2 logical threads (one application call, the link thread). Application call: each of send (blocking and MSG_DONTWAIT), sendto, recv, recvfrom, accept, connect (by address and by name), listen, bind, getsockopt, setsockopt, getsockname/getpeername, resolve (bytes and str), poll('recv'/'send'/'acks') without and with time-out, close - on a socket of each suitable kind in each of 25 states reached by <= 5 real set-up operations (raw/ldl: unbound, bound, datagram queued for recv, PDU queued for sending, connected, closed; dlc: unbound, bound, listening with empty / filled backlog, a thread sleeping in connect(), established (passive open through the real listen/dispatch/accept), established with data queued, with an unacknowledged / a not yet collected I PDU (send window full when RW(R)=1), CLOSE_WAIT, a thread sleeping in close(), closed; service discovery fresh / request pending). Link thread: one step that ends the link out of {llc.terminate() called directly, run loop ended by the terminate callback (local choice), MAC exchange returns None (link disruption), DISC received (remote choice), IOError in the MAC (input/output error + SystemExit)} each run through the real run_as_initiator/run_as_target over a scripted MAC, optionally preceded by one event of the conversation delivered by one real run-loop iteration (DISC, DM, FRMR, I with wrong N(S), valid I, UI, CONNECT, CC for the socket under test, SYMM) = 2 preemptions. Preemption points: before the call, every lock acquisition while the application thread holds no lock, every acquisition of a further lock while it holds one (a link step that then needs the held lock while owning the wanted one = lock-order deadlock), inside every Condition.wait(), after every wake-up; all enumerated. After the link ended 16-25 further calls on the same socket. Service bodies SnepServer._listen/_serve and HandoverServer.listen/serve with 0-2 queued connection requests / request fragments, link ended at every preemption point, threads they start run afterwards. Several waiters: 2 application threads (real call stacks, one running at a time) asleep in the same kind of call - resolve() of different names, accept() on one listening socket, recv()/recvfrom() on one raw / logical-data-link / connection socket, blocking send() on one connection / raw socket, poll('recv'), poll('acks') - in each rotation of the order they went to sleep, then each link-ending step, the woken threads run in every order; none may stay asleep. Symbolic: where the link thread runs (flags), RW announced by the peer 0..15 (send window open/full), link MIU 128..2175 for connection-less sockets, payload octets, SNEP header version/length octets",
-    "thorough": "as quick with 2 and 3 sleeping threads per kind of call (all terminators, both roles, also after a conversation event), both roles (initiator/target run loop) x all 6 link-ending steps (adds NFC-DEP time-out in exchange) alone and after every listed conversation event (all 2-step scripts), VERIF_SEED-chosen scripts of 3-4 link steps (up to 4 preemptions) for 14 states, and for every state and call a second enumeration at source-line granularity: a preemption point before every line of nfc.llcp.llc/tco/socket and the two server modules that the application thread executes while it holds no lock (terminators: llc.terminate(), remote DISC)",
+    "quick": "schedule enumeration, not data: 2 logical threads (one application call, the link thread). Application call: each of send (blocking and MSG_DONTWAIT), sendto, recv, recvfrom, accept, connect (by address and by name), listen, bind, getsockopt, setsockopt, getsockname/getpeername, resolve (bytes and str), poll('recv'/'send'/'acks') without and with time-out, close - on a socket of each suitable kind in each of 25 states reached by <= 5 real set-up operations (raw/ldl: unbound, bound, datagram queued for recv, PDU queued for sending, connected, closed; dlc: unbound, bound, listening with empty / filled backlog, a thread sleeping in connect(), established (passive open through the real listen/dispatch/accept), established with data queued, with an unacknowledged / a not yet collected I PDU (send window full when RW(R)=1), CLOSE_WAIT, a thread sleeping in close(), closed; service discovery fresh / request pending). Link thread: one step that ends the link out of {llc.terminate() called directly, run loop ended by the terminate callback (local choice), MAC exchange returns None (link disruption), DISC received (remote choice), IOError in the MAC (input/output error + SystemExit), nfc.clf.TimeoutError in the MAC} each run through the real run_as_initiator/run_as_target over a scripted MAC, optionally preceded by one event of the conversation delivered by one real run-loop iteration (DISC, DM, FRMR, I with wrong N(S), valid I, UI, CONNECT, CC for the socket under test, SYMM) = 2 preemptions. Preemption points: before the call, every lock acquisition while the application thread holds no lock, every acquisition of a further lock while it holds one (a link step that then needs the held lock while owning the wanted one = lock-order deadlock), inside every Condition.wait(), after every wake-up; all enumerated. After the link ended 16-25 further calls on the same socket. Service bodies SnepServer._listen/_serve and HandoverServer.listen/serve with 0-2 queued connection requests / request fragments, link ended at every preemption point, threads they start run afterwards. The link loop dying from inside: for every state one run-loop iteration whose outbound PDU can not be encoded (a thread sleeping in resolve() of a 261-octet name, in connect() to a 261-octet service name, or a raw access point that queued a PDU with DSAP 70; link MIU 2175) - exchange() must absorb the EncodeError and the loop end the link; an exception other than SystemExit/KeyboardInterrupt leaving run_as_initiator/run_as_target is the violation run-loop-raises. Several waiters: 2 application threads (real call stacks, one running at a time) asleep in the same kind of call - resolve() of different names, accept() on one listening socket, recv()/recvfrom() on one raw / logical-data-link / connection socket, blocking send() on one connection / raw socket, poll('recv'), poll('acks') - in each rotation of the order they went to sleep, then each link-ending step, the woken threads run in every order; none may stay asleep. Symbolic: where the link thread runs (flags), RW announced by the peer 0..15 (send window open/full), link MIU 128..2175 for connection-less sockets, payload octets, SNEP header version/length octets",
+    "thorough": "as quick with every nfc.clf.CommunicationError subclass (TimeoutError, TransmissionError, ProtocolError, BrokenLinkError, CommunicationError itself) raised by the MAC, all three un-encodable PDUs in every state and both roles, 2 and 3 sleeping threads per kind of call (all terminators, both roles, also after a conversation event), both roles (initiator/target run loop) x all 6 link-ending steps (adds NFC-DEP time-out in exchange) alone and after every listed conversation event (all 2-step scripts), VERIF_SEED-chosen scripts of 3-4 link steps (up to 4 preemptions) for 14 states, and for every state and call a second enumeration at source-line granularity: a preemption point before every line of nfc.llcp.llc/tco/socket and the two server modules that the application thread executes while it holds no lock (terminators: llc.terminate(), remote DISC)",
 }
 OUTSIDE = ["more than one *running* application thread (two calls racing on one socket, a second thread calling close() on a socket another thread waits on); several threads are covered only asleep in the same kind of call when the link ends, descheduled nowhere but in Condition.wait()",
            "schedules in which a link step has to wait for a lock the application thread owns without a lock-order cycle (pruned, listed as assumption when it occurs; it does not occur on the unchanged tree: the application side never nests two different locks)",
